@@ -91,7 +91,7 @@ def parse_total(text):
 
 # ------------------------------------------------------------------ print -> parse
 BINOPS = ["+", "-", "*", "/", "//", "mod", "rem", "div", "**", "^", "<<", ">>", "/\\", "\\/", "xor", "<", ">", "=<", ">=",
-          "=:=", "=\\=", "=", "\\=", "==", "\\==", "@<", "@>", "@=<", "@>=", "is", "=.."]
+          "=:=", "=\\=", "=", "\\=", "==", "\\==", "@<", "@>", "@=<", "@>=", "is", "=..", "=@=", "\\=@=", "><", "#"]
 UNOPS = ["-", "\\", "+"]
 ATOMS = ["a", "b", "foo", "'A b'", "'hello world'", "[]", "aB_1", "'X'", "'1'", "true"]
 
